@@ -1,16 +1,34 @@
-(* C13 Fast-sync continuity.  PARTIAL.
-   Hashgraph.Reset / InsertFrameEvent are not yet part of the Coq model; what is proved here are the
-   facts about frames that make "any honest node can serve any other" meaningful on full-history
-   nodes: a frame is computed once per round and never recomputed or altered (the stored frame of a
-   processed round is immutable), and a block's frame is the frame of its round-received.
-   Continuity itself (a reset node delivers the same blocks as full-history nodes) is evaluated by
-   the oracle; on the unchanged code it exposed two defects that were fixed (stale validators after a
-   fast-forward inside the activation window: /repo 3b6a6ac; frame.Roots aliased by the store:
-   d85ab32) and one known finding (ROOT_DEPTH roots can be insufficient: C13-roots-insufficient). *)
-From Coq Require Import ZArith List Bool.
-From V Require Import Model.ZMap Model.Quorum Model.HgImpl Proofs.ZMapFacts.
+(* C13 Fast-sync continuity.  Statements only.
+
+   Model: Model/HgReset.v (Hashgraph.Reset, InmemStore.Reset, InsertFrameEvent, Frame.SortedFrameEvents,
+   core.fastForward after a successful checkFastForward, node.fastForward's receipts) on top of
+   Model/HgImpl.v.  A transported frame = model [frame] + the bodies [cores] of the events it mentions
+   (event identifiers stand for hashes, so a FrameEvent's Core is a function of its id).
+
+   What is here:
+   - frames on full-history nodes: computed once, carried by the block (kept from the first version);
+   - C13_reset_state / C13_reset_dag / C13_reset_validators: the state a fast-forward leaves behind,
+     for EVERY victim state, block, frame whose event ids are distinct and non-negative and whose
+     peer-set table is sorted (what an honest GetFrame produces; see frame_shape);
+   - C13_continuity_round_partial (+ witness flag, Lamport timestamp): an event inserted after the
+     reset gets the same round on the reset node as on a full-history node PROVIDED roots_sufficient
+     (the two nodes agree on what round() reads: the parent round's witnesses that the event strongly
+     sees are known to the reset node, and the coordinate comparisons give the same answers);
+   - C13_roots_insufficient_refuted: the unconditional statement is FALSE of the faithful model, as it
+     is of the code (known finding C13-roots-insufficient): concrete history found and minimised on the
+     real node.core objects (harness/cmd/resetwit), replayed here by vm_compute; the same witness shows
+     that it is exactly roots_sufficient that fails.
+   - C13_continuity_statement: the full block-level statement, as a Definition (asserted nowhere; it is
+     false without roots_sufficient by the refutation, and its proof under roots_sufficient needs the
+     order invariants re-established from a reset state: not done). *)
+From Coq Require Import ZArith List Bool Sorted Permutation.
+From V Require Import Model.ZMap Model.Quorum Model.HgImpl Model.HgReset Model.PeerSetSpec
+  Proofs.ZMapFacts Proofs.AdmissionProofs Proofs.BlockInv Proofs.OrderProofs
+  Proofs.PeerSetProofs Proofs.ResetProofs Proofs.ResetServer Proofs.ResetMemo Proofs.ResetRound Proofs.ResetWitness Proofs.ResetRefute Proofs.ResetWitnessOk Proofs.ResetExample.
 Import ListNotations.
 Open Scope Z_scope.
+
+(** * Frames on full-history nodes *)
 
 (* GetFrame returns the stored frame when there is one: a frame is never recomputed *)
 Theorem C13_frame_computed_once : forall st rr f,
@@ -25,6 +43,296 @@ Theorem C13_block_carries_frame : forall i f st,
 Proof. exact (fun i f st => conj eq_refl (conj eq_refl (conj eq_refl eq_refl))). Qed.
 Print Assumptions C13_block_carries_frame.
 
-(* NOT STATED IN COQ: continuity after a reset.  It needs Hashgraph.Reset / InsertFrameEvent in the
-   model (planned) and a "roots are sufficient" hypothesis; the oracle shows that hypothesis can
-   fail on real histories (known finding C13-roots-insufficient). *)
+(** * The state after core.fastForward(block, frame) *)
+
+(* block store = the anchor block alone, frame cache = the frame alone, peer-set table = the frame's
+   table, validators = the latest recorded set of that table, lower bound = last consensus round =
+   the block's round-received, no undetermined events, no pending rounds, no anchor; signature
+   pool, own signatures, delivered blocks untouched *)
+Theorem C13_reset_state : forall v b f cores v1,
+  frame_shape f -> core_fast_forward v b f cores = (true, v1) ->
+  blocks v1 = zset (b_index b) b zempty /\ last_block v1 = Z.max (b_index b) (-1) /\
+  frames v1 = zset (f_round f) f zempty /\
+  peersets v1 = f_peersets f /\ validators v1 = ff_validators f /\
+  lower_bound v1 = Some (b_rr b) /\ last_consensus v1 = Some (b_rr b) /\
+  undetermined v1 = [] /\ pending v1 = [] /\ anchor v1 = None /\ pending_loaded v1 = 0 /\
+  sigpool v1 = sigpool v /\ self_sigs v1 = self_sigs v /\ delivered v1 = delivered v /\ self v1 = self v.
+Proof.
+  exact (fun v b f cores v1 FS H =>
+    let P := reset_hg_post v b f cores v1 FS H in
+    conj (rp_blocks _ _ _ _ _ P) (conj (rp_last_block _ _ _ _ _ P) (conj (rp_frames _ _ _ _ _ P)
+    (conj (rp_table _ _ _ _ _ P) (conj (rp_validators _ _ _ _ _ P) (conj (rp_lb _ _ _ _ _ P)
+    (conj (rp_lc _ _ _ _ _ P) (conj (rp_und _ _ _ _ _ P) (conj (rp_pending _ _ _ _ _ P)
+    (conj (rp_anchor _ _ _ _ _ P) (conj (rp_pl _ _ _ _ _ P) (conj (rp_sigpool _ _ _ _ _ P)
+    (conj (rp_self_sigs _ _ _ _ _ P) (conj (rp_delivered _ _ _ _ _ P) (rp_self _ _ _ _ _ P))))))))))))))).
+Qed.
+Print Assumptions C13_reset_state.
+
+(* the DAG of the reset node = the root events and the frame events, each with the body shipped in
+   the frame, its recorded round / Lamport timestamp / witness flag in the event, in the memo
+   tables and in the round table, no round-received, fame undecided, nothing received; nothing else
+   is stored or memoised (except stale Lamport memo entries, which Reset keeps) *)
+Theorem C13_reset_dag : forall v b f cores v1,
+  frame_shape f -> core_fast_forward v b f cores = (true, v1) -> reset_dag f cores v v1.
+Proof. exact (fun v b f cores v1 FS H => reset_post_dag v b f cores v1 (reset_hg_post v b f cores v1 FS H)). Qed.
+Print Assumptions C13_reset_dag.
+
+(* node.fastForward then applies the anchor block's receipts: table and validators are what
+   core.commit computes on a full-history node from the same table (C10's replay_step) *)
+Theorem C13_reset_validators : forall v b f cores v',
+  frame_shape f -> node_fast_forward v b f cores = (true, v') ->
+  (peersets v', validators v') = replay_step (f_peersets f, ff_validators f) (b_rr b) (b_itxs b).
+Proof. exact node_fast_forward_table. Qed.
+Print Assumptions C13_reset_validators.
+
+(* InmemStore.Reset ranges over the Go map Frame.PeerSets, i.e. calls SetPeerSet in an arbitrary
+   order: whatever permutation of the frame's entries is used, the recorded table is the frame's
+   (sorted) table and every lookup -- for EVERY round, not only the rounds that are keys -- is the
+   lookup in that table (PeerSetCache keeps its rounds sorted on every insertion) *)
+Theorem C13_reset_table_order_independent : forall st f l s,
+  Permutation.Permutation l (f_peersets f) -> StronglySorted Z.lt (map fst (f_peersets f)) ->
+  set_peersets (store_clear st) l = (true, s) ->
+  peersets s = f_peersets f /\ forall r, get_peerset s r = ps_table_get r (f_peersets f).
+Proof. exact reset_table_any_order. Qed.
+Print Assumptions C13_reset_table_order_independent.
+
+(* after the fast-forward, for every round: the validator set the reset node uses is the one the
+   frame's table gives *)
+Theorem C13_reset_lookup : forall v b f cores v1 r,
+  frame_shape f -> core_fast_forward v b f cores = (true, v1) ->
+  get_peerset v1 r = ps_table_get r (f_peersets f).
+Proof.
+  exact (fun v b f cores v1 r FS H =>
+    eq_ind_r (fun t => ps_table_get r t = ps_table_get r (f_peersets f)) eq_refl
+             (rp_table _ _ _ _ _ (reset_hg_post v b f cores v1 FS H))).
+Qed.
+Print Assumptions C13_reset_lookup.
+
+(** * The serving side: what an honest peer answers, for every reachable state *)
+
+(* GetAnchorBlockWithFrame on any state a full-history node can reach (any schedule of insertion
+   attempts of validly identified events and ProcessSigPool calls): the state is not changed, the
+   block is the stored copy of a DELIVERED block (same body, at least its signatures), the frame is
+   the one that block was built from, the event bodies are the server's stored events *)
+Theorem C13_anchor_answer : forall all ss g os ops b f cores s',
+  ids_determine all -> Forall (hop_ok all) ops -> ss <> -1 ->
+  anchor_block_with_frame (hrun (init_hg ss g os) ops) = (Some (b, f, cores), s') ->
+  s' = hrun (init_hg ss g os) ops /\ f = b_frame b /\ cores = frame_cores (hrun (init_hg ss g os) ops) f /\
+  exists k d, nth_error (delivered (hrun (init_hg ss g os) ops)) k = Some d /\
+              zget (Z.of_nat k) (blocks (hrun (init_hg ss g os) ops)) = Some b /\ body b = body d /\ sigs_incl d b.
+Proof. exact anchor_answer. Qed.
+Print Assumptions C13_anchor_answer.
+
+(* the frame of every delivered block records the validator-set table that C10's replay gives for
+   the blocks delivered BEFORE it *)
+Theorem C13_frame_table_is_replay : forall g ss os ops ds1 d ds2,
+  ss <> -1 -> delivered (hrun (init_hg ss g os) ops) = ds1 ++ d :: ds2 ->
+  f_peersets (b_frame d) = fst (replay_genesis g ds1).
+Proof. exact (fun g ss os ops ds1 d ds2 Hs H => si_dtab g _ (hrun_sinv g ss os ops Hs) ds1 d ds2 H). Qed.
+Print Assumptions C13_frame_table_is_replay.
+
+(* ... hence: a node (in ANY state v) that fast-forwards from the k-th delivered block of a
+   full-history node and its frame ends with exactly the table and the core.validators that C10
+   specifies for a node that delivered blocks 0..k: the reset node uses the validator sets a
+   full-history node uses, pending changes inside the six-round window included *)
+Theorem C13_reset_validators_replay : forall g ss os ops k d b v cores v',
+  ss <> -1 ->
+  nth_error (delivered (hrun (init_hg ss g os) ops)) k = Some d ->
+  zget (Z.of_nat k) (blocks (hrun (init_hg ss g os) ops)) = Some b ->
+  frame_shape (b_frame b) ->
+  node_fast_forward v b (b_frame b) cores = (true, v') ->
+  (peersets v', validators v') = replay_genesis g (firstn (S k) (delivered (hrun (init_hg ss g os) ops))).
+Proof. exact reset_table_is_replay. Qed.
+Print Assumptions C13_reset_validators_replay.
+
+(* in every reachable state, every event of every cached frame -- root events included -- carries the
+   serving node's memoised round and Lamport timestamp, and the witness flag of its entry in the
+   RoundInfo of that round (memo entries are never overwritten, witness flags never change) *)
+Theorem C13_frame_values_are_memo : forall all ss g os ops rr f,
+  ids_determine all -> Forall (hop_ok all) ops ->
+  zget rr (frames (hrun (init_hg ss g os) ops)) = Some f ->
+  Forall (frame_event_ok (hrun (init_hg ss g os) ops)) (all_frame_events f).
+Proof. exact (fun all ss g os ops rr f ID Ho H => proj1 (hrun_fmemo all ss g os ops ID Ho rr f H)). Qed.
+Print Assumptions C13_frame_values_are_memo.
+
+(* which past is shipped: every root of every cached frame holds at most ROOT_DEPTH + 1 = 11 events
+   with consecutive indexes (the head and its self-ancestors), all but possibly the head by the
+   root's participant; together with C13_reset_dag: the reset DAG is closed under nothing deeper *)
+Theorem C13_root_depth : forall all ss g os ops rr f c l,
+  ids_determine all -> Forall (hop_ok all) ops ->
+  zget rr (frames (hrun (init_hg ss g os) ops)) = Some f -> In (c, l) (f_roots f) ->
+  (length l <= S ROOT_DEPTH)%nat /\
+  exists idx, forall k fe, nth_error l k = Some fe ->
+    exists es, get_event (hrun (init_hg ss g os) ops) (fe_id fe) = Some es /\
+               e_index (ev_e es) = idx + Z.of_nat k /\ ((S k < length l)%nat -> e_creator (ev_e es) = c).
+Proof. exact (fun all ss g os ops rr f c l ID Ho H Hin => proj2 (hrun_fmemo all ss g os ops ID Ho rr f H) c l Hin). Qed.
+Print Assumptions C13_root_depth.
+
+(* ... hence the reset node stores every root / frame event with the serving node's round, Lamport
+   timestamp and witness flag (event fields and memo tables) *)
+Theorem C13_reset_values_are_servers : forall all ss g os ops rr f v b cores v1,
+  ids_determine all -> Forall (hop_ok all) ops ->
+  zget rr (frames (hrun (init_hg ss g os) ops)) = Some f ->
+  frame_shape f -> core_fast_forward v b f cores = (true, v1) ->
+  forall fe, In fe (all_frame_events f) ->
+    exists es ri t,
+      get_event v1 (fe_id fe) = Some es /\
+      ev_round es = zget (fe_id fe) (round_memo (hrun (init_hg ss g os) ops)) /\
+      ev_lt es = zget (fe_id fe) (lt_memo (hrun (init_hg ss g os) ops)) /\
+      zget (fe_id fe) (round_memo v1) = zget (fe_id fe) (round_memo (hrun (init_hg ss g os) ops)) /\
+      zget (fe_id fe) (lt_memo v1) = zget (fe_id fe) (lt_memo (hrun (init_hg ss g os) ops)) /\
+      get_round (hrun (init_hg ss g os) ops) (fe_round fe) = Some ri /\
+      aget (fe_id fe) (ri_created ri) = Some (fe_wit fe, t) /\
+      zget (fe_id fe) (witness_memo v1) = Some (fe_wit fe).
+Proof. exact reset_values_are_servers. Qed.
+Print Assumptions C13_reset_values_are_servers.
+
+(** * Continuity of rounds, witness flags, Lamport timestamps under [roots_sufficient] *)
+
+(* y: an event stored in both nodes with the same body, not yet divided, whose parents have the same
+   memoised rounds on both; pr: the parent round.  If the peer set of pr is the same and the roots
+   are sufficient for y, _round(y) returns the same value on the reset node v and the full node s *)
+Theorem C13_continuity_round_partial : forall fv fs v s y ev es spr opr,
+  zget y (round_memo v) = None -> zget y (round_memo s) = None ->
+  get_event v y = Some ev -> get_event s y = Some es -> ev_e ev = ev_e es ->
+  parent_round v (e_sp (ev_e ev)) = Some spr -> parent_round s (e_sp (ev_e es)) = Some spr ->
+  parent_round v (e_op (ev_e ev)) = Some opr -> parent_round s (e_op (ev_e es)) = Some opr ->
+  get_peerset v (if spr <? opr then opr else spr) = get_peerset s (if spr <? opr then opr else spr) ->
+  (forall pps, get_peerset s (if spr <? opr then opr else spr) = Some pps ->
+               roots_sufficient v s y (if spr <? opr then opr else spr) pps) ->
+  fst (round_f (S fv) v y) = fst (round_f (S fs) s y).
+Proof. exact round_f_agree. Qed.
+Print Assumptions C13_continuity_round_partial.
+
+(* the same at the level of DivideRounds ("ev.round == nil" block: _round, SetRound on the event,
+   _witness, AddCreatedEvent): with the same validator-set table and sufficient roots, the reset
+   node and the full node record for y the same memoised round and witness flag, the same round
+   field and the same RoundInfo entry ([divided]); both fail when _round / _witness fail *)
+Theorem C13_continuity_divide_partial : forall v s y ev es spr opr,
+  0 <= y ->
+  zget y (round_memo v) = None -> zget y (round_memo s) = None ->
+  zget y (witness_memo v) = None -> zget y (witness_memo s) = None ->
+  get_event v y = Some ev -> get_event s y = Some es -> ev_e ev = ev_e es ->
+  ev_round ev = None -> ev_round es = None ->
+  parent_round v (e_sp (ev_e ev)) = Some spr -> parent_round s (e_sp (ev_e es)) = Some spr ->
+  parent_round v (e_op (ev_e ev)) = Some opr -> parent_round s (e_op (ev_e es)) = Some opr ->
+  e_sp (ev_e ev) <> y ->
+  (forall r ri, get_round v r = Some ri -> aget y (ri_created ri) = None) ->
+  (forall r ri, get_round s r = Some ri -> aget y (ri_created ri) = None) ->
+  (forall r, get_peerset v r = get_peerset s r) ->
+  (forall pps, get_peerset s (if spr <? opr then opr else spr) = Some pps ->
+               roots_sufficient v s y (if spr <? opr then opr else spr) pps) ->
+  divided (divide_round v y) y = divided (divide_round s y) y.
+Proof. exact divide_round_agree. Qed.
+Print Assumptions C13_continuity_divide_partial.
+
+(* the coordinate part of roots_sufficient, from the coordinates themselves: strongly-see only
+   compares, validator by validator of the peer set, the index of y's last ancestor with the index
+   of w's first descendant *)
+Theorem C13_strongly_see_reads_indexes : forall v s y w pps yv ys wv ws,
+  get_event v y = Some yv -> get_event s y = Some ys -> get_event v w = Some wv -> get_event s w = Some ws ->
+  (forall p, In p (keys pps) -> ss_test (ev_la yv) (ev_fd wv) p = ss_test (ev_la ys) (ev_fd ws) p) ->
+  strongly_see v y w pps = strongly_see s y w pps.
+Proof. exact strongly_see_agree. Qed.
+Print Assumptions C13_strongly_see_reads_indexes.
+
+(* same round, same self-parent round, same peer set at that round: same witness flag *)
+Theorem C13_continuity_witness_partial : forall fv fs v s y ev es xr spr,
+  zget y (witness_memo v) = None -> zget y (witness_memo s) = None ->
+  get_event v y = Some ev -> get_event s y = Some es -> ev_e ev = ev_e es ->
+  zget y (round_memo v) = Some xr -> zget y (round_memo s) = Some xr ->
+  parent_round v (e_sp (ev_e ev)) = Some spr -> parent_round s (e_sp (ev_e es)) = Some spr ->
+  get_peerset v xr = get_peerset s xr ->
+  fst (witness_f fv v y) = fst (witness_f fs s y).
+Proof. exact witness_f_agree. Qed.
+Print Assumptions C13_continuity_witness_partial.
+
+(* same parents' timestamps (the other-parent stored in both nodes): same Lamport timestamp *)
+Theorem C13_continuity_lamport_partial : forall fv fs v s y ev es plt opt,
+  zget y (lt_memo v) = None -> zget y (lt_memo s) = None ->
+  get_event v y = Some ev -> get_event s y = Some es -> ev_e ev = ev_e es ->
+  ResetRound.parent_lt v (e_sp (ev_e ev)) = Some plt -> ResetRound.parent_lt s (e_sp (ev_e es)) = Some plt ->
+  (e_op (ev_e ev) = -1 \/
+   (get_event v (e_op (ev_e ev)) <> None /\ get_event s (e_op (ev_e ev)) <> None /\
+    zget (e_op (ev_e ev)) (lt_memo v) = Some opt /\ zget (e_op (ev_e ev)) (lt_memo s) = Some opt)) ->
+  fst (lamport_f (S fv) v y) = fst (lamport_f (S fs) s y).
+Proof. exact lamport_f_agree. Qed.
+Print Assumptions C13_continuity_lamport_partial.
+
+(** * The unconditional statement is false (known finding C13-roots-insufficient) *)
+
+(* for all histories of a serving node, a fast-forwarding node (before and after its reset) and a
+   full-history node, made of validly signed events with distinct identifiers: an event has the same
+   round on the reset node and on the full-history node.  REFUTED. *)
+Theorem C13_roots_insufficient_refuted : ~ C13_continuity_round_statement.
+Proof. exact continuity_round_refuted. Qed.
+Print Assumptions C13_roots_insufficient_refuted.
+
+(* ... and on that witness it is roots_sufficient that fails: the full-history node's event strongly
+   sees a parent-round witness that is not in the reset node's store *)
+Theorem C13_refutation_is_roots_insufficient :
+  exists v1 pps,
+    reset_from (hrun (init_hg rw_victim_self rw_genesis rw_victim_oracle) rw_victim_ops_before)
+               (hrun (init_hg rw_server_self rw_genesis rw_server_oracle) rw_server_ops) = Some v1 /\
+    get_peerset (hrun (init_hg rw_full_self rw_genesis rw_full_oracle) rw_full_ops) rw_parent_round = Some pps /\
+    ~ roots_sufficient (hrun v1 rw_victim_ops_after) (hrun (init_hg rw_full_self rw_genesis rw_full_oracle) rw_full_ops)
+        rw_event rw_parent_round pps.
+Proof. exact roots_insufficient_witness. Qed.
+Print Assumptions C13_refutation_is_roots_insufficient.
+
+(** * The full block-level statement (not proved) *)
+
+(* every block the reset node delivers after its reset is the block with the same index that the
+   full-history node delivered (payload view: round-received, transactions, internal transactions,
+   frame), provided every event the reset node inserted after the reset had sufficient roots.
+   Missing for a proof: the order invariants (Proofs/RoundOrder, OrderProofs) re-established from a
+   reset state, where lower_bound = Some _ and ancestors below the roots are absent. *)
+Definition C13_continuity_statement : Prop :=
+  forall genesis all ss os ops_s sv ov ops_v ops_v' sf of ops_f v1 d,
+    ids_determine all -> (forall e, In e all -> e_sigok e = true) ->
+    Forall (hop_ok all) ops_s -> Forall (hop_ok all) ops_v -> Forall (hop_ok all) ops_v' -> Forall (hop_ok all) ops_f ->
+    reset_from (hrun (init_hg sv genesis ov) ops_v) (hrun (init_hg ss genesis os) ops_s) = Some v1 ->
+    (forall y ey, get_event (hrun v1 ops_v') y = Some ey -> get_event v1 y = None ->
+       forall pr pps, get_peerset (hrun (init_hg sf genesis of) ops_f) pr = Some pps ->
+         roots_sufficient (hrun v1 ops_v') (hrun (init_hg sf genesis of) ops_f) y pr pps) ->
+    In d (delivered (hrun v1 ops_v')) -> ~ In d (delivered v1) ->
+    exists d', In d' (delivered (hrun (init_hg sf genesis of) ops_f)) /\ b_index d' = b_index d /\ pv d' = pv d.
+
+(** * Non-vacuity: the hypotheses of the reset-state theorems hold on a real history *)
+
+(* the fast-forward of the witness history: honest frame, frame_shape holds, the reset succeeds *)
+Example C13_reset_hypotheses_satisfiable :
+  match anchor_block_with_frame (hrun (init_hg rw_server_self rw_genesis rw_server_oracle) rw_server_ops) with
+  | (Some (b, f, cores), _) =>
+    frame_shapeb f = true /\
+    fst (node_fast_forward (hrun (init_hg rw_victim_self rw_genesis rw_victim_oracle) rw_victim_ops_before) b f cores) = true /\
+    (length (root_events f) = 18 /\ length (f_events f) = 7)%nat
+  | _ => False
+  end.
+Proof. vm_compute. repeat split; reflexivity. Qed.
+
+(* the hypotheses of C13_continuity_round_partial, roots_sufficient included, hold on a real history
+   (corpus/C13-continuity-example.trace, 4 validators, 17 events: node 3 fast-forwards from node 1
+   and then receives event 4, whose parents are root events of round 0): on both nodes the event
+   strongly sees the three round-0 witnesses and gets round 1 *)
+Example C13_continuity_hypotheses_satisfiable :
+  is_some ro_v1 = true /\
+  zget 4 (round_memo ro_v) = None /\ zget 4 (round_memo ro_s) = None /\
+  (exists ev es, get_event ro_v 4 = Some ev /\ get_event ro_s 4 = Some es /\ ev_e ev = ev_e es /\
+     parent_round ro_v (e_sp (ev_e ev)) = Some 0 /\ parent_round ro_s (e_sp (ev_e es)) = Some 0 /\
+     parent_round ro_v (e_op (ev_e ev)) = Some 0 /\ parent_round ro_s (e_op (ev_e es)) = Some 0) /\
+  get_peerset ro_v 0 = get_peerset ro_s 0 /\
+  (forall pps, get_peerset ro_s 0 = Some pps -> roots_sufficient ro_v ro_s 4 0 pps) /\
+  round_witnesses_at ro_v 0 = [0; 1; 2] /\
+  fst (round_f 1 ro_v 4) = Some 1 /\ fst (round_f 1 ro_s 4) = Some 1.
+Proof.
+  split; [vm_compute; reflexivity|]. split; [vm_compute; reflexivity|]. split; [vm_compute; reflexivity|].
+  split.
+  { eexists. eexists. split; [vm_compute; reflexivity|]. split; [vm_compute; reflexivity|].
+    split; [vm_compute; reflexivity|]. split; [vm_compute; reflexivity|]. split; [vm_compute; reflexivity|].
+    split; vm_compute; reflexivity. }
+  split; [vm_compute; reflexivity|].
+  split.
+  { intros pps H. vm_compute in H. injection H as <-. apply roots_sufficientb_sound. vm_compute. reflexivity. }
+  split; [vm_compute; reflexivity|]. split; vm_compute; reflexivity.
+Qed.
